@@ -12,6 +12,7 @@ import (
 	"time"
 
 	proto "github.com/kubewharf/kubebrain-client/api/v2rpc"
+	"google.golang.org/grpc"
 	"k8s.io/client-go/tools/leaderelection/resourcelock"
 	"k8s.io/klog/v2"
 
@@ -19,6 +20,8 @@ import (
 	"github.com/kubewharf/kubebrain/pkg/backend/coder"
 	"github.com/kubewharf/kubebrain/pkg/backend/scanner"
 	"github.com/kubewharf/kubebrain/pkg/metrics"
+	"github.com/kubewharf/kubebrain/pkg/server/brain"
+	"github.com/kubewharf/kubebrain/pkg/server/service"
 	"github.com/kubewharf/kubebrain/pkg/server/service/leader"
 	"github.com/kubewharf/kubebrain/pkg/storage"
 	"github.com/kubewharf/kubebrain/pkg/verifhook"
@@ -62,6 +65,9 @@ type backendSuite struct {
 
 	// stepped repair: a released retry() is being stepped under the pseudo client id retryCid
 	rActive int32
+
+	// native (brain) Watch streams opened by `bwatch`
+	bstreams map[string]*brainStream
 }
 
 // retryMetrics passes every metric through to the production client and, in stepped-repair mode, turns the
@@ -102,6 +108,34 @@ func (m slowStartMetrics) EmitCounter(name string, value interface{}, tags ...me
 		time.Sleep(m.d)
 	}
 	return m.Metrics.EmitCounter(name, value, tags...)
+}
+
+// brainStream is the in-process server side of a native Watch stream.
+type brainStream struct {
+	grpc.ServerStream
+	ctx    context.Context
+	cancel context.CancelFunc
+	mu     sync.Mutex
+	revs   []uint64
+	hdrOK  bool
+	done   bool
+	err    error
+}
+
+func (b *brainStream) Context() context.Context { return b.ctx }
+func (b *brainStream) Send(r *proto.WatchResponse) error {
+	b.mu.Lock()
+	defer b.mu.Unlock()
+	var last uint64
+	for _, e := range r.Events {
+		b.revs = append(b.revs, e.Revision)
+		last = e.Revision
+	}
+	// C02: the header of a response is never smaller than the revision of any data in it
+	if r.Header == nil || r.Header.Revision < last {
+		b.hdrOK = false
+	}
+	return nil
 }
 
 // campaignBackend is the Backend handed to the real leader election: it records the revision the new
@@ -535,6 +569,60 @@ func (s *backendSuite) do(t []string) string {
 		}
 		s.watchers[pos[1]] = &watcher{ch: ch, cancel: cancel}
 		return "watch " + pos[1] + " ok"
+	case "bwatch":
+		// bwatch <id> <hexprefix> <rev>: the NATIVE Watch handler (pkg/server/brain) of a leader over this backend,
+		// on an in-process stream that records every response (header revision + the revisions of its events)
+		bs := brain.New(s.b, getMetrics(), service.NewPeerService(&leader.Stub{ElectionInfo: leader.ElectionInfo{LeaderAddress: "127.0.0.1:0", IsLeader: true}}, getMetrics(), s.b, service.Config{}))
+		st := &brainStream{ctx: ctx, hdrOK: true}
+		wctx, cancel := context.WithCancel(ctx)
+		st.ctx = wctx
+		if s.bstreams == nil {
+			s.bstreams = map[string]*brainStream{}
+		}
+		st.cancel = cancel
+		s.bstreams[pos[1]] = st
+		go func() {
+			err := bs.Watch(&proto.WatchRequest{Key: unhx(pos[2]), Revision: atou(pos[3])}, st)
+			st.mu.Lock()
+			st.done, st.err = true, err
+			st.mu.Unlock()
+		}()
+		time.Sleep(20 * time.Millisecond) // let the handler subscribe (a watch from "now" must not miss the next write)
+		return "bwatch " + pos[1] + " ok"
+	case "bdrain":
+		// bdrain <id> [want=<n>]: the events received so far (waits, bounded, for n); hdrok = no response's header
+		// was below the revision of an event it carried
+		st := s.bstreams[pos[1]]
+		if st == nil {
+			return "bdrain " + pos[1] + " nowatch"
+		}
+		want := atoi(opts["want"])
+		deadline := time.Now().Add(s.wait)
+		for {
+			st.mu.Lock()
+			n := len(st.revs)
+			st.mu.Unlock()
+			if n >= want || !time.Now().Before(deadline) {
+				break
+			}
+			time.Sleep(time.Millisecond)
+		}
+		time.Sleep(10 * time.Millisecond)
+		st.mu.Lock()
+		defer st.mu.Unlock()
+		revs := make([]string, len(st.revs))
+		for i, r := range st.revs {
+			revs[i] = fmt.Sprint(r)
+		}
+		out := strings.Join(revs, ",")
+		if out == "" {
+			out = "-"
+		}
+		hdrok := 1
+		if !st.hdrOK {
+			hdrok = 0
+		}
+		return fmt.Sprintf("bdrain %s n=%d hdrok=%d revs=%s", pos[1], len(st.revs), hdrok, out)
 	case "drain":
 		return s.drain(pos[1], opts)
 	case "cancel":
